@@ -1057,7 +1057,11 @@ def run_case(seed, size, want_text=False):
                            "covered_by_removal_notification": c.removed.get(id(last)) is last})
             else:
                 c.violate(f"driver-raised:{type(e).__name__}:{where}",
-                          f"rewrite_module raised outside any pattern: {type(e).__name__}: {str(e)[:160]}")
+                          f"driver code raised {type(e).__name__} in {where} "
+                          + ("during a rewriter call made by a pattern" if in_pattern else "outside any pattern")
+                          + f"; last popped {describe(last)}: {re.sub(r'\d{6,}', 'ID', str(e))[:160]}",
+                          {"exception": type(e).__name__, "raised_in": where, "inside_pattern_call": in_pattern,
+                           "frames": [q for _f, q in frames][-8:]})
     c.monitoring = False
     c.current_pattern = "<applier>"
     canon_end = canon_ir(module)
